@@ -445,7 +445,8 @@ class Interp:
 
     def index_value(self, v, i, frame):
         if isinstance(v, ASym) or isinstance(i, ASym):
-            return ASym(('index', getattr(v, 'term', v), getattr(i, 'term', i)))
+            vt = ('table', v.origin) if isinstance(v, AAgg) and v.origin else self.term_of(v)
+            return ASym(('index', vt, self.term_of(i)))
         if isinstance(v, AAgg) and isinstance(i, AInt):
             if i.is_const():
                 if 0 <= i.lo < len(v.fields):
@@ -482,6 +483,11 @@ class Interp:
             cur_frame.locals[cur_local] = val
             return
         v = cur_frame.locals[cur_local]
+        if isinstance(v, ASym):
+            # update of a part of an opaque symbolic value: keep it as a functional update term
+            key = tuple(sorted((k, (x if not isinstance(x, AInt) else x.lo)) for e in path for k, x in (e.items() if isinstance(e, dict) else [('p', e)])))
+            cur_frame.locals[cur_local] = ASym(('upd', v.term, key, self.term_of(val)))
+            return
         if v is None or isinstance(v, ATop):
             # materialise an aggregate if the type is known
             tykey = cur_frame.body['locals'][cur_local]['ty']
@@ -628,7 +634,7 @@ class Interp:
 
     def binop(self, op, a, b, frame, span):
         if isinstance(a, ASym) or isinstance(b, ASym):
-            return ASym(('bin', op, getattr(a, 'term', a), getattr(b, 'term', b)))
+            return ASym(('bin', op, self.term_of(a), self.term_of(b)))
         if isinstance(a, AFloat) or isinstance(b, AFloat):
             return self.float_binop(op, a, b)
         if isinstance(a, AAgg) and isinstance(b, AAgg) and not a.fields and not b.fields and op in ('Eq', 'Ne'):
@@ -673,6 +679,10 @@ class Interp:
             ovb.taint = r.taint
             return AAgg('(tuple)', [r, ovb])
         return r
+
+    def term_of(self, v):
+        import symeval
+        return symeval.term_of(self, v)
 
     def bool_op(self, op, a, b):
         t = aval.taint2(a, b)
@@ -973,10 +983,6 @@ class Interp:
         return None
 
     def call_function(self, frame, t, path, rargs, args):
-        if self.call_hook:
-            r = self.call_hook(self, frame, path, rargs, args, t)
-            if r is not None:
-                return r
         # Into::into -> From::from of the target
         if path == '<T as core::convert::Into<U>>::into' and rargs and len(rargs) == 2 and 'ty' in rargs[0] and 'ty' in rargs[1]:
             src, dst = rargs[0]['ty'], rargs[1]['ty']
@@ -986,6 +992,10 @@ class Interp:
                     for it in im['items']:
                         if it['name'] == 'from':
                             return self.call_function(frame, t, it['path'], [], args)
+        if self.call_hook:
+            r = self.call_hook(self, frame, path, rargs, args, t)
+            if r is not None:
+                return r
         intr = INTRINSICS.get(path)
         if intr is None:
             # strip the type from core::num::<impl u8>::wrapping_neg
@@ -1060,7 +1070,7 @@ def _num_wrapping(op):
     def f(I, fr, t, path, rargs, args):
         a, b = args
         if isinstance(a, ASym) or isinstance(b, ASym):
-            return ASym(('bin', 'wrapping_' + op, getattr(a, 'term', a), getattr(b, 'term', b)))
+            return ASym(('bin', 'wrapping_' + op, I.term_of(a), I.term_of(b)))
         if not (_ai(a) and _ai(b)):
             return ATop('?')
         if op == 'add':
